@@ -19,11 +19,21 @@ const N_TERMS: usize = 8;
 struct Table {
     grid: [[f32; N_TERMS]; N_TERMS],
     calls: Rc<RefCell<Vec<(u32, u32)>>>,
+    /// the ids of the ontology in use; a term id is mapped to its position here
+    ids: Rc<Vec<u32>>,
+}
+
+thread_local! {
+    static CURRENT_IDS: RefCell<Rc<Vec<u32>>> = RefCell::new(Rc::new((0..N_TERMS as u32).map(|i| BASE + i).collect()));
+}
+
+fn slot(ids: &[u32], id: u32) -> usize {
+    ids.iter().position(|x| *x == id).expect("term id of the test ontology")
 }
 
 impl Table {
     fn new() -> Table {
-        Table { grid: [[f32::NAN; N_TERMS]; N_TERMS], calls: Rc::new(RefCell::new(vec![])) }
+        Table { grid: [[f32::NAN; N_TERMS]; N_TERMS], calls: Rc::new(RefCell::new(vec![])), ids: CURRENT_IDS.with(|c| c.borrow().clone()) }
     }
 }
 
@@ -32,7 +42,7 @@ impl Similarity for Table {
         use hpo::annotations::AnnotationId;
         let (x, y) = (a.id().as_u32(), b.id().as_u32());
         self.calls.borrow_mut().push((x, y));
-        self.grid[(x - BASE) as usize][(y - BASE) as usize]
+        self.grid[slot(&self.ids, x)][slot(&self.ids, y)]
     }
 }
 
@@ -73,11 +83,28 @@ fn check_matrix(ont: &Ontology, m: &[Vec<f32>], r: usize, c: usize, a_ids: &[u32
     let mut table = Table::new();
     for i in 0..r {
         for j in 0..c {
-            table.grid[(a_ids[i] - BASE) as usize][(b_ids[j] - BASE) as usize] = m[i][j];
+            table.grid[slot(&table.ids, a_ids[i])][slot(&table.ids, b_ids[j])] = m[i][j];
         }
     }
     let a = set(ont, a_ids);
     let b = set(ont, b_ids);
+    // every case starts with a larger, unrelated comparison on the same thread (all scores 0.95): a
+    // comparison must not depend on what was compared before (no state may leak between calls)
+    {
+        let ids = table.ids.clone();
+        let mut warm = Table::new();
+        for x in 0..N_TERMS {
+            for y in 0..N_TERMS {
+                warm.grid[x][y] = 0.95;
+            }
+        }
+        let wa = set(ont, &ids[..4]);
+        let wb = set(ont, &ids[4..]);
+        let w = GroupSimilarity::new(StandardCombiner::FunSimAvg, warm).calculate(&wa, &wb);
+        if !close(w, 0.95) {
+            return v("GroupSimilarity::calculate", "result is not the documented combination of the pairwise matrix", format!("4x4 matrix of 0.95: {w}"));
+        }
+    }
     let data: Vec<f32> = (0..r).flat_map(|i| (0..c).map(move |j| (i, j))).map(|(i, j)| m[i][j]).collect();
     for comb in COMBINERS {
         let want = reference(comb, m, r, c);
@@ -111,7 +138,7 @@ fn check_matrix(ont: &Ontology, m: &[Vec<f32>], r: usize, c: usize, a_ids: &[u32
         // make the table total and asymmetric where the matrix did not define it: T(y,x) := transposed-and-shifted values
         for i in 0..r {
             for j in 0..c {
-                let (x, y) = ((a_ids[i] - BASE) as usize, (b_ids[j] - BASE) as usize);
+                let (x, y) = (slot(&table.ids, a_ids[i]), slot(&table.ids, b_ids[j]));
                 if full.grid[y][x].is_nan() {
                     full.grid[y][x] = m[(i + 1) % r][(j + 1) % c] * 0.5 + 0.125;
                 }
@@ -138,7 +165,7 @@ fn check_matrix(ont: &Ontology, m: &[Vec<f32>], r: usize, c: usize, a_ids: &[u32
         let mut conflict = false;
         for i in 0..r {
             for j in 0..c {
-                let (x, y) = ((a_ids[i] - BASE) as usize, (b_ids[j] - BASE) as usize);
+                let (x, y) = (slot(&table.ids, a_ids[i]), slot(&table.ids, b_ids[j]));
                 for (p, q) in [(x, y), (y, x)] {
                     if !sym.grid[p][q].is_nan() && sym.grid[p][q] != m[i][j] {
                         conflict = true;
@@ -241,6 +268,66 @@ pub fn run(ctx: &mut Ctx) {
                         ctx.sample(|| json!({"shape": [r, c], "first_matrix_of_block": m, "block": [start, end]}));
                     }
                     ctx.outcome(crate::ctx::fnv_str(&format!("{:?}", reference(StandardCombiner::FunSimAvg, &m, r, c).to_bits())) % 65536);
+                }
+                start = end;
+            }
+        }
+    }
+
+    // ---- the same sweep on term ids that collide under plausible key-packing schemes of a cache
+    // (a*10^6+b, a<<16|b, a<<20|b): (2,3000005)~(5,5), (2,70000)~(3,4464), (2,1100000)~(3,51424)
+    let ids2: Vec<u32> = vec![2, 3, 5, 4464, 51_424, 70_000, 1_100_000, 3_000_005];
+    let mut f2 = Facts::default();
+    f2.terms.push(Facts::term(1, "root"));
+    for i in &ids2 {
+        f2.terms.push(Facts::term(*i, &format!("T{i}")));
+        f2.edges.push((*i, 1));
+    }
+    let ont2 = drive::build(&f2, Mode::Minimal).expect("flat ontology must build");
+    CURRENT_IDS.with(|c| *c.borrow_mut() = Rc::new(ids2.clone()));
+    let b_choices: [[u32; 3]; 4] = [[5, 3_000_005, 70_000], [4464, 70_000, 3_000_005], [51_424, 1_100_000, 3_000_005], [5, 4464, 51_424]];
+    for r in 1..=3usize {
+        for c in 1..=3usize {
+            let cells = r * c;
+            let total: u64 = 4u64.pow(cells as u32);
+            ctx.space(&format!("matrices/collision-prone-ids/{r}x{c}"), &format!("all {total} matrices of shape {r}x{c} over {alpha4:?} with A = first {r} of [2,3,5] and B = first {c} ids of four choices from {{5, 4464, 51424, 70000, 1100000, 3000005}}"));
+            let block: u64 = 512;
+            let mut start = 0u64;
+            while start < total {
+                let end = (start + block).min(total);
+                if !ctx.take() {
+                    start = end;
+                    continue;
+                }
+                for idx in start..end {
+                    ctx.state();
+                    let mut k = idx;
+                    let mut m = vec![vec![0f32; c]; r];
+                    for i in 0..r {
+                        for j in 0..c {
+                            m[i][j] = alpha4[(k % 4) as usize];
+                            k /= 4;
+                        }
+                    }
+                    if nontrivial(&m, r, c) {
+                        ctx.nontrivial();
+                    }
+                    for bc in &b_choices {
+                        let a_ids: Vec<u32> = ids2[..r].to_vec();
+                        let mut b_ids: Vec<u32> = bc[..c].to_vec();
+                        b_ids.sort_unstable();
+                        ctx.exec();
+                        ctx.validated();
+                        ctx.transitions(27);
+                        match guard(|| check_matrix(&ont2, &m, r, c, &a_ids, &b_ids, "collision-prone ids")) {
+                            Ok(None) => {}
+                            Ok(Some((site, sig, det))) => ctx.violation(&site, &sig, json!({"rows": r, "cols": c, "matrix": m, "A": a_ids, "B": b_ids, "difference": det})),
+                            Err(p) => ctx.violation("HpoSet::similarity", "panics", json!({"rows": r, "cols": c, "matrix": m, "A": a_ids, "B": b_ids, "observed": p})),
+                        }
+                    }
+                    if idx == start {
+                        ctx.sample(|| json!({"shape": [r, c], "first_matrix_of_block": m, "A": &ids2[..r], "B_choices": b_choices}));
+                    }
                 }
                 start = end;
             }
